@@ -213,3 +213,71 @@ func ceCallName(info *types.Info, call *ast.CallExpr) string {
 	}
 	return ""
 }
+
+// ceSingleDef returns the defining expression of a local variable that is assigned
+// exactly once in f's root function (`v := e` / `var v = e`), else nil.
+func ceSingleDef(f *engine.Fn, v types.Object) ast.Expr {
+	if v == nil {
+		return nil
+	}
+	root := f.Root()
+	info := root.Info()
+	var def ast.Expr
+	n := 0
+	ast.Inspect(root.Body, func(x ast.Node) bool {
+		switch s := x.(type) {
+		case *ast.AssignStmt:
+			for i, l := range s.Lhs {
+				if id, ok := ast.Unparen(l).(*ast.Ident); ok && info.ObjectOf(id) == v {
+					n++
+					if len(s.Lhs) == len(s.Rhs) {
+						def = s.Rhs[i]
+					} else {
+						def = nil
+						n += 10
+					}
+				}
+			}
+		case *ast.ValueSpec:
+			for i, id := range s.Names {
+				if info.ObjectOf(id) == v {
+					n++
+					if len(s.Values) == len(s.Names) {
+						def = s.Values[i]
+					} else if len(s.Values) != 0 {
+						n += 10
+					}
+				}
+			}
+		case *ast.IncDecStmt:
+			if id, ok := ast.Unparen(s.X).(*ast.Ident); ok && info.ObjectOf(id) == v {
+				n += 10
+			}
+		case *ast.UnaryExpr:
+			if id, ok := ast.Unparen(s.X).(*ast.Ident); ok && s.Op == token.AND && info.ObjectOf(id) == v {
+				n += 10
+			}
+		case *ast.RangeStmt:
+			for _, e := range []ast.Expr{s.Key, s.Value} {
+				if e != nil {
+					if id, ok := ast.Unparen(e).(*ast.Ident); ok && info.ObjectOf(id) == v {
+						n += 10
+					}
+				}
+			}
+		}
+		return true
+	})
+	if n != 1 {
+		return nil
+	}
+	return def
+}
+
+func ceConstantInt64(k *types.Const) (int64, bool) {
+	v := constant.ToInt(k.Val())
+	if v.Kind() != constant.Int {
+		return 0, false
+	}
+	return constant.Int64Val(v)
+}
